@@ -63,12 +63,48 @@ def lake_build(targets, timeout=3000):
     return _built[key]
 
 
+_driver = {'bin': 'rvdrv', 'dropped': []}
+
+
 def build_driver():
-    return lake_build(['rvdrv'])
+    """Build the model driver.  If the full driver does not build (a hand-written module no longer fits the regenerated
+    model), fall back to `rvdrv_fb`: generated dispatch + every hand table whose module still compiles, so that the
+    search for a failing input can still run; the broken build stays a broken obligation."""
+    ok, err = lake_build(['rvdrv'])
+    if ok:
+        return ok, err
+    src = open(os.path.join(LEAN, 'RvModel', 'Hand', 'DispatchAll.lean')).read()
+    mods = re.findall(r'^import (RvModel\.[A-Za-z0-9_.]+)', src, re.M)
+    m = re.search(r'def table[^\n]*:=\s*(.*)', src)
+    terms = [t.strip() for t in m.group(1).split('++')] if m else []
+    good_mods, good_terms = [], []
+    for mod in mods:
+        okm, _ = lake_build([mod])
+        if not okm:
+            _driver['dropped'].append(mod)
+            continue
+        good_mods.append(mod)
+        body = open(os.path.join(LEAN, *mod.split('.')) + '.lean').read()
+        for t in terms:
+            if re.search(r'^def %s\b' % re.escape(t.split('.')[-1]), body, re.M) and t not in good_terms:
+                good_terms.append(t)
+    os.makedirs(os.path.join(LEAN, 'RvModel', 'Fb'), exist_ok=True)
+    with open(os.path.join(LEAN, 'RvModel', 'Fb', 'DispatchFb.lean'), 'w') as f:
+        f.write(''.join('import %s\n' % mm for mm in good_mods) + 'import RvModel.Wire\nopen HandDispatch in\n'
+                'def HandDispatchFb.table : List (String × Rd String) := ' + (' ++ '.join(good_terms) if good_terms else '[]') + '\n')
+    okf, errf = lake_build(['rvdrv_fb'])
+    if okf:
+        _driver['bin'] = 'rvdrv_fb'
+        log('driver: full build failed, using fallback without', _driver['dropped'])
+    return False, err
+
+
+def driver_usable():
+    return os.path.exists(driver_path()) and (_driver['bin'] == 'rvdrv_fb' or _built.get(('lake', 'rvdrv'), (False,))[0])
 
 
 def driver_path():
-    return os.path.join(LEAN, '.lake', 'build', 'bin', 'rvdrv')
+    return os.path.join(LEAN, '.lake', 'build', 'bin', _driver['bin'])
 
 
 def harness_path():
@@ -106,10 +142,35 @@ def enc(v):
     raise ValueError(f'enc {v!r}')
 
 
+def _run_impl(lines):
+    """feed the lines to the harness; the harness gives up (exit 3) after a few hung calls — their threads keep
+    spinning — and is restarted on the remaining lines; an aborted process marks the line it died on as DIED"""
+    out = []
+    restarts = 0
+    env = dict(os.environ, RVH_MAX_HANGS='3')
+    while len(out) < len(lines):
+        rest = lines[len(out):]
+        p = subprocess.run([harness_path()], input='\n'.join(rest) + '\n', capture_output=True, text=True, env=env)
+        got = p.stdout.split('\n')
+        if got and got[-1] == '':
+            got.pop()
+        got = got[:len(rest)]
+        out += got
+        if len(got) == len(rest):
+            break
+        restarts += 1
+        if p.returncode != 3:
+            out.append('DIED')          # abort / stack overflow on this line
+        if restarts >= 2:
+            env['RVH_HANG_MS'] = '2000'
+        if restarts > 40:
+            out += ['DIED'] * (len(lines) - len(out))
+    return out[:len(lines)]
+
+
 def run_pair(lines, want_model=True):
     """feed the same lines to the Rust harness (real code) and the Lean driver (model); returns two lists of answers"""
     data = '\n'.join(lines) + '\n'
-    pi = subprocess.Popen([harness_path()], stdin=subprocess.PIPE, stdout=subprocess.PIPE, text=True)
     pm = subprocess.Popen([driver_path()], stdin=subprocess.PIPE, stdout=subprocess.PIPE, text=True) if want_model else None
     import threading
     res = {}
@@ -117,7 +178,10 @@ def run_pair(lines, want_model=True):
     def feed(p, k):
         out, _ = p.communicate(data)
         res[k] = out.split('\n')[:-1] if out.endswith('\n') else out.split('\n')
-    ts = [threading.Thread(target=feed, args=(pi, 'impl'))]
+
+    def feed_impl():
+        res['impl'] = _run_impl(lines)
+    ts = [threading.Thread(target=feed_impl)]
     if pm:
         ts.append(threading.Thread(target=feed, args=(pm, 'model')))
     for t in ts:
@@ -127,7 +191,6 @@ def run_pair(lines, want_model=True):
     impl = res.get('impl', [])
     model = res.get('model', []) if pm else [None] * len(lines)
     if len(impl) != len(lines):
-        # the harness died (abort): bisect is left to the caller; pad
         impl = impl + ['DIED'] * (len(lines) - len(impl))
     if pm and len(model) != len(lines):
         model = model + ['DIED'] * (len(lines) - len(model))
@@ -188,6 +251,9 @@ def check_props_file(relpath, timeout=3000):
     for i, (pos, name) in enumerate(decl):
         start = line_of(pos)
         end = line_of(decl[i + 1][0]) - 1 if i + 1 < len(decl) else len(offs)
+        mpa = re.compile(r'^#print axioms', re.M).search(src, pos)
+        if mpa and line_of(mpa.start()) - 1 < end:
+            end = line_of(mpa.start()) - 1     # the trailing block of `#print axioms` lines belongs to no theorem
         spans.append((start, end, name))
     errors = []
     axioms = {}
@@ -229,6 +295,10 @@ def check_props_file(relpath, timeout=3000):
         theorems[name] = {'ok': ok and not bad_ax, 'errors': errs[:2], 'sorry': sor, 'axioms': ax, 'bad_axioms': bad_ax,
                           'line': s}
     stray = [(l, d) for (l, d) in errors if not any(s <= l <= e for (s, e, _) in spans)]
+    # `#print axioms X` of a theorem that failed to elaborate ("Unknown constant"): already counted at the theorem
+    broken_names = {n for n, r in theorems.items() if not r['ok']}
+    stray = [(l, d) for (l, d) in stray
+             if not (d.startswith('Unknown constant') and any(d.rstrip('`').endswith('.' + n) or d.rstrip('`').endswith('`' + n) for n in broken_names))]
     return {'theorems': theorems, 'stray_errors': stray, 'rc': p.returncode, 'wall_s': time.time() - t0,
             'stderr': p.stderr[-2000:]}
 
